@@ -1,15 +1,16 @@
 (* Executable comparison of what the real SharedDictDataset showed with the model
    (Model.v, repaired code: fixed = copyfix = true) and with the spec (Spec.v).  Used by harness/c19.py.
    No proofs. *)
-From Coq Require Import ZArith List Bool Arith.
+From Coq Require Import String ZArith List Bool Arith.
 Import ListNotations.
-From KD Require Import C19.Model C19.Spec.
+From KD Require Import C19.Model C19.Attr C19.Spec.
 Open Scope Z_scope.
 
 Record case_t := {
   c_kind : nat;                 (* 0 = sequential history (real Manager dict)
                                    1 = schedule replayed through the scheduling proxy
-                                   2 = real processes on the real Manager dict (order unknown: spec only) *)
+                                   2 = real processes on the real Manager dict (order unknown: spec only)
+                                   3 = attribute resolution of the cache layer over a wrapped dataset with colliding names *)
   c_ids : list Z;               (* the wrapped dataset: sample id at positions 0..n-1 *)
   c_has_tf : bool;              (* transform given? *)
   c_byref : bool;               (* the payload contains torch tensors: the Manager connection ships them as shared-memory handles *)
@@ -23,7 +24,14 @@ Record case_t := {
                                    claimed to explain the per-process logs (checked here) *)
   c_lin : bool;                 (* kind 2: such a schedule is supplied *)
   c_log : list ev;              (* observed events in observed order *)
-  c_dicts : list (list (Z * Z))  (* observed final content of each cache: index -> sample id *)
+  c_dicts : list (list (Z * Z));  (* observed final content of each cache: index -> sample id *)
+  (* kind 3 *)
+  c_inst : list string;         (* observed: names in vars(cached) *)
+  c_cls : list string;          (* observed: functions defined in the class bodies of SharedDictDataset / CachedDataset *)
+  c_inherited : list string;    (* observed: probed names that torch's Dataset / object answer *)
+  c_bhas : list string;         (* the names the wrapped dataset answers *)
+  c_probes : list (string * nat); (* observed: name -> who answered getattr(cached, name) (who_code) *)
+  c_blank : list (string * nat)  (* observed: the same on type(cached).__new__(type(cached)), whose __dict__ is empty *)
 }.
 
 (* a Python list as dataset: positions -n..n-1 exist *)
@@ -56,6 +64,28 @@ Definition final_dict (s : state) : list (Z * Z) := dict_content (hp s) (sd s).
 Definition every_accessb (nprocs : nat) (l : list ev) : bool :=
   forallb (fun p => list_eqb Nat.eqb (calls_of p l) (seq 0 (length (calls_of p l)))) (seq 0 nprocs).
 
+Definition same_names (a b : list string) : bool :=
+  forallb (fun n => smem n b) a && forallb (fun n => smem n a) b.
+
+(* kind 3.  Spec: no name the cache layer itself uses or defines is ever answered by the wrapped dataset (in particular
+   `transform`, `dataset`, `shared_dict`, `__getitems__`).  Model: instance dict and class bodies
+   are the ones of Attr.v and every probe resolves as [resolve] says. *)
+Definition check_attr (c : case_t) : nat :=
+  let own_names := (inst_shared ++ cls_shared true)%list in
+  if negb (forallb (fun pn => negb (smem (fst pn) own_names) || negb (Nat.eqb (snd pn) (who_code Fwd))) (c_probes c))
+  then 2
+  else if same_names (c_inst c) inst_shared && same_names (c_cls c) (cls_shared true) &&
+          forallb (fun pn => Nat.eqb (snd pn)
+                               (who_code (resolve {| l_inst := c_inst c; l_cls := c_cls c |} (c_inherited c)
+                                                  (fun n => smem n (c_bhas c)) (fst pn)))) (c_probes c) &&
+          forallb (fun pn => Nat.eqb (snd pn)
+                               (who_code (resolve (shared_layer true) (c_inherited c) (fun n => smem n (c_bhas c)) (fst pn))))
+                  (c_probes c) &&
+          forallb (fun pn => Nat.eqb (snd pn)
+                               (who_code (resolve (blank_layer true) (c_inherited c) (fun _ => true) (fst pn))))
+                  (c_blank c)
+       then 0 else 1.
+
 (* 0 = implementation, model and spec agree; 1 = the model differs from the implementation;
    2 = the spec is false of the implementation's output *)
 Definition check (c : case_t) : nat :=
@@ -86,6 +116,7 @@ Definition check (c : case_t) : nat :=
       then 2
       else let s := run true true (c_byref c) (c_inplace c) base blen tf draws (c_sched c) (init [] [] (c_progs c)) in
            if list_eqb ev_eqb (log s) (c_log c) && dict_same (final_dict s) d then 0 else 1
+  | S (S (S _)) => check_attr c
   | _ =>
       (* the global order of the events of different processes is unknown: the spec is checked order-free, and the
          schedule the harness proposes must make the model produce every process' own event sequence and the final
